@@ -211,6 +211,8 @@ func C01(c *Ctx) {
 	c.R.Rule("C01-R5", "E3", "matched scalar members are consumed", 1)
 	c.R.Rule("C01-R6", "E5+E3", "bindings private to each alternative", 2)
 	c.R.Rule("C01-R7", "E1", "matching leaves the pattern and the message intact (answers are about the pattern and message the caller holds)", 8)
+	c.R.Rule("C01-R8", "E3+E5", "a pattern of one kind (map, array, number, boolean) is only matched by a message part of the same kind", 4)
+	c.R.Rule("C01-R9", "E3", "the variable predicates mean what the documentation says", 2)
 	m := c.newMatchModel()
 	for _, f := range m.fns {
 		c.R.Fn(fname(f))
@@ -334,6 +336,8 @@ func C01(c *Ctx) {
 	}
 	// ---- R4
 	c01Inequal(c, m)
+	c01Kinds(c, m)
+	c01Predicates(c)
 	// ---- R5
 	// (in match itself, or in whichever helper of the matcher holds the array case)
 	n5 := 0
@@ -958,4 +962,125 @@ func negationOf(f *ssa.Function, name string) bool {
 		}
 	}
 	return true
+}
+
+// c01Kinds: C01-R8.  Where the pattern is known to be a map, an array, a number or a boolean, every exit that
+// answers "matched" (a non-nil list without an error) lies under a successful test that the message part is of
+// that same kind.  (A string pattern is a constant, compared as a string, or a variable, which binds anything.)
+func c01Kinds(c *Ctx, m *matchModel) {
+	kindOf := func(t types.Type) string {
+		switch u := t.Underlying().(type) {
+		case *types.Map:
+			return "map"
+		case *types.Slice:
+			return "array"
+		case *types.Basic:
+			switch u.Kind() {
+			case types.Float64:
+				return "number"
+			case types.Bool:
+				return "boolean"
+			}
+		}
+		return ""
+	}
+	n := 0
+	for _, f := range m.fns {
+		seenKind := map[string]bool{}
+		ssau.Instrs(f, func(in ssa.Instruction) {
+			ta, ok := in.(*ssa.TypeAssert)
+			if !ok || !ta.CommaOk || !m.has(ta.X, "P") {
+				return
+			}
+			k := kindOf(ta.AssertedType)
+			if k == "" || seenKind[k] {
+				return
+			}
+			var okv ssa.Value
+			for _, r := range ssau.Referrers(ta) {
+				if ex, isEx := r.(*ssa.Extract); isEx && ex.Index == 1 {
+					okv = ex
+				}
+			}
+			if okv == nil {
+				return
+			}
+			seenKind[k] = true
+			n++
+			bad := ""
+			for _, b := range f.Blocks {
+				ret, isRet := b.Instrs[len(b.Instrs)-1].(*ssa.Return)
+				if !isRet || len(ret.Results) != 2 || ssau.IsNilConst(ret.Results[0]) || !ssau.IsNilConst(ret.Results[1]) {
+					continue
+				}
+				inCase, same := false, false
+				for _, ft := range flow.FactsAt(b) {
+					if ft.Cond == okv && ft.True {
+						inCase = true
+					}
+					if ex, isEx := ft.Cond.(*ssa.Extract); isEx && ex.Index == 1 && ft.True {
+						if t2, isTA := ex.Tuple.(*ssa.TypeAssert); isTA && t2 != ta && kindOf(t2.AssertedType) == k && m.has(t2.X, "F") && !m.has(t2.X, "P") {
+							same = true
+						}
+					}
+				}
+				if inCase && !same {
+					bad = c.pos(ret)
+				}
+			}
+			c.R.Check(bad == "", "C01-R8", fmt.Sprintf("%s: a %s pattern is matched only by a %s", fname(blameCaller(f, m.fns)), k, k), c.pos(ta), "every matching exit of the case lies under a test that the message part is a "+k, "with a "+k+" pattern the matcher can answer 'matched' at "+bad+" without having tested that the message part is a "+k+": the instantiated pattern is then not contained in the message")
+		})
+	}
+	if n == 0 {
+		c.R.Break("C01-R8: no type test of the pattern found in the matcher")
+	}
+}
+
+// c01Predicates: C01-R9.  IsVariable answers true only for a string that starts with '?', IsOptionalVariable only
+// for one that starts with "??" (the matcher skips a missing key on its word).
+func c01Predicates(c *Ctx) {
+	for _, pr := range []struct {
+		name, prefix string
+	}{{"IsVariable", "?"}, {"IsOptionalVariable", "??"}} {
+		h := c.fn("match", "Matcher", pr.name)
+		if h == nil {
+			continue
+		}
+		c.R.Fn(fname(h))
+		hasPrefix := func(b *ssa.BasicBlock, extra []flow.Fact) bool {
+			chars := map[int64]bool{}
+			for _, ft := range append(flow.FactsAt(b), flow.Expand(extra)...) {
+				if !ft.True {
+					continue
+				}
+				if cl, isC := ft.Cond.(*ssa.Call); isC && ssau.CalleeName(cl) == "strings.HasPrefix" && len(cl.Common().Args) == 2 {
+					if sv, isS := ssau.ConstString(cl.Common().Args[1]); isS && strings.HasPrefix(sv, pr.prefix) {
+						return true
+					}
+				}
+				if bo, isB := ft.Cond.(*ssa.BinOp); isB && bo.Op == token.EQL {
+					// s[i] == '?'
+					if ix, isIx := bo.X.(*ssa.Index); isIx {
+						if i, isCI := ssau.ConstInt(ix.Index); isCI {
+							if ch, isCh := ssau.ConstInt(bo.Y); isCh && ch == '?' {
+								chars[i] = true
+							}
+						}
+					}
+					// s[:k] == "??" / s == "?"
+					if sv, isS := ssau.ConstString(bo.Y); isS && strings.HasPrefix(sv, pr.prefix) {
+						return true
+					}
+				}
+			}
+			for i := 0; i < len(pr.prefix); i++ {
+				if !chars[int64(i)] {
+					return false
+				}
+			}
+			return true
+		}
+		ok := trueImplies(h, 0, hasPrefix)
+		c.R.Check(ok, "C01-R9", pr.name+": true only for a string that starts with "+fmt.Sprintf("%q", pr.prefix), c.P.Pos(h.Pos()), "every way to answer true lies under strings.HasPrefix(s, "+fmt.Sprintf("%q", pr.prefix)+") (or the same test spelled out)", pr.name+" can answer true for a string that does not start with "+fmt.Sprintf("%q", pr.prefix)+": the matcher then treats a constant as a variable (binds it, or skips it when its key is missing)")
+	}
 }
